@@ -119,6 +119,13 @@ def processLine (acc : Acc) (line : String) : Acc :=
     let kv := kvOf ((line.drop 2).toString.splitOn " ")
     let s := applyMod emptyState kv
     { acc with cur := { s with bank := applyLedger emptyBank kv } }
+  else if line.startsWith "I " then
+    -- the SDK's registered invariants evaluated on the real state by the harness
+    match line.splitOn " " with
+    | [_, seq, kv] =>
+      if kv == "invariants=ok" then { acc with out := acc.out.push s!"{seq} I ok" }
+      else { acc with out := (acc.out.push s!"{seq} I {kv}").push s!"{seq} V C02 sdk_invariants" }
+    | _ => acc
   else if line.startsWith "O " then
     let (opToks, outToks, deltaToks) := splitOp line
     match opToks with
